@@ -136,6 +136,10 @@ def rtb_obs_exact(last, loss, d, tol, dtype):
 
 # ----------------------------------------------------------------------------- fake optimizer
 
+class SolverFailed(RuntimeError):
+    """what a user callback / solver may legitimately raise inside a driver loop"""
+
+
 def make_fake_optimizer_class():
     from pypose.optim.optimizer import _Optimizer
 
@@ -150,6 +154,12 @@ def make_fake_optimizer_class():
             if has_reject:
                 self.reject, self.reject_count = 16, 0   # like LM
 
+        def __getstate__(self):          # torch's Optimizer pickles only defaults/state/param_groups
+            return dict(self.__dict__)
+
+        def __setstate__(self, state):
+            self.__dict__.update(state)
+
         def feed(self, last, loss, rc):
             self.last, self.loss = last, loss
             if rc is not None:
@@ -157,11 +167,16 @@ def make_fake_optimizer_class():
 
         def step(self, input=None, target=None, weight=None):
             self.args = (input, target, weight)
+            if getattr(self, "raise_at", None) == self.calls:
+                self.raise_at = None
+                raise SolverFailed("linear solver failed (injected)")
             last, loss, rc = self.script[self.calls]
             self.calls += 1
             self.feed(last, loss, rc)
             return loss
 
+    FakeOpt.__module__, FakeOpt.__qualname__ = __name__, "FakeOpt"    # picklable (copies stream)
+    globals()["FakeOpt"] = FakeOpt
     return FakeOpt
 
 
